@@ -354,7 +354,28 @@ def _format_ok(c: ast.Call) -> str:
         return f"the format {text!r} uses '*' or mapping conversions"
     if n != len(c.args) - 1:
         return f"the format {text!r} has {n} conversion(s) for {len(c.args) - 1} value(s)"
+    # a numeric conversion applied to something that is certainly text (token text / type, a string constant, str(...),
+    # an f-string) raises TypeError in verbose mode only
+    convs = [m.group(0)[-1] for m in _CONV.finditer(text) if m.group(1) != "%"]
+    for conv, a in zip(convs, c.args[1:]):
+        if conv in "diouxXeEfFgGc" and _certainly_text(a) and not (conv == "c" and isinstance(a, ast.Constant) and isinstance(a.value, str) and len(a.value) == 1):
+            return f"the conversion %{conv} of {text!r} is applied to `{short(a, 30)}`, which is text"
     return ""
+
+
+def _certainly_text(a: ast.AST) -> bool:
+    if isinstance(a, ast.Constant):
+        return isinstance(a.value, (str, bytes))
+    if isinstance(a, ast.JoinedStr):
+        return True
+    if isinstance(a, ast.Call) and isinstance(a.func, ast.Name) and a.func.id in ("str", "repr"):
+        return True
+    if isinstance(a, ast.Call) and isinstance(a.func, ast.Attribute) and a.func.attr in ("format", "join", "strip", "lower", "upper"):
+        return True
+    # LexToken.value / .type are always strings (PLY puts the matched text there; the lexer's rules only re-slice it)
+    if isinstance(a, ast.Attribute) and a.attr in ("value", "type", "filename"):
+        return True
+    return False
 
 
 def _expand_locals(cfg, at, e: ast.AST, depth: int = 0) -> str:
